@@ -7,7 +7,7 @@ from rules.rfs import *
 LEVEL = "other"
 MIN_OBLIGATIONS = 7
 THOROUGH_CONFIGS = ("headeronly",)
-TECHNIQUE = "linear normal form of the rotation inequality + exhaustive evaluation of the extracted guard on an integer grid containing every boundary; def-use provenance of the measured size and of the record length; single-write rule; measured-equals-written rule on the write site (record framing), shared max+1 index rule; writer/reader name-scheme agreement and single-pass .arg() rule shared with C09; the rename source is the open file's name; stale-size rule (no size read before a possible rotation is used after it); no narrowing of the 64-bit file size; size limit followed from the constructors into the member by cases; the grid demands must-reach of rotate() under (current, length, limit, count), a guard on other member state set by the rotation itself is definite"
+TECHNIQUE = "linear normal form of the rotation inequality + exhaustive evaluation of the extracted guard on an integer grid containing every boundary; def-use provenance of the measured size and of the record length; single-write rule; measured-equals-written rule on the write site (record framing), shared max+1 index rule; writer/reader name-scheme agreement and single-pass .arg() rule shared with C09; the rename source is the open file's name; stale-size rule (no size read before a possible rotation is used after it); no narrowing of the 64-bit file size; size limit followed from the constructors into the member by cases; the grid demands must-reach of rotate() under (current, length, limit, count), a guard on other member state set by the rotation itself is definite; the scanned index for the name's date is what the rotated name gets (value-identity rule shared with C09); the INI front-end hands the limits to the sink as read (shared with C19)"
 LEVEL_TEXT = ("Decides the size inequality for all record sizes and limits: the guards of checkSizeRotation are unit-coefficient linear comparisons over (current size, added size, limit), so "
               "evaluating the extracted guard on a grid that contains every boundary is exact; the rotation must fire whenever current > 0 and current + length + 1 > L (a more eager rotation is accepted). "
               "The current size must be the open file object's size() (which counts buffered bytes), the added size the encoded length plus at least the newline, and a record is one write. "
